@@ -55,6 +55,11 @@ var c16Scens = []c16Scen{
 	{Label: "looped-marked-element-in-component-first-included-with-empty-list", Files: map[string]string{
 		"p.vuego": `<template include="c.vuego" :r="empty"></template><template include="c.vuego" :r="items"></template><template include="c.vuego" :r="items"></template>`,
 		"c.vuego": `<section><b v-for="x in r" v-once data-m="m1">{{ x }}</b><i data-m="w1"></i></section>`}, WantOther: map[string]int{"m1": 1, "w1": 3}},
+	// the marked v-else behind a loop that has items the first time and none later: emitted once, at the first empty collection
+	{Label: "else-after-loop-nonempty-first-then-empty", Files: map[string]string{"p.vuego": `<div v-for="r in rows2"><p v-for="x in r" data-m="w0">a</p><b v-else v-once data-m="m1">none</b><i data-m="w1"></i></div>`}, WantOther: map[string]int{"m1": 1, "w0": 3, "w1": 4}},
+	{Label: "else-after-loop-in-component-nonempty-first-then-empty", Files: map[string]string{
+		"p.vuego": `<template include="c.vuego" :r="items"></template><template include="c.vuego" :r="empty"></template><template include="c.vuego" :r="empty"></template>`,
+		"c.vuego": `<section><p v-for="x in r" data-m="w0">a</p><b v-else v-once data-m="m1">none</b><i data-m="w1"></i></section>`}, WantOther: map[string]int{"m1": 1, "w0": 3, "w1": 3}},
 	// v-once written on shorthand component tags of the rendered template itself: two different tags are two marked elements
 	{Label: "two-shorthand-component-tags-marked", Files: map[string]string{
 		"p.vuego":                          `<main><widget-scripts v-once></widget-scripts><i data-m="w1"></i><widget-styles v-once></widget-styles></main>`,
@@ -70,7 +75,7 @@ var c16Scens = []c16Scen{
 func c16NScen() int { return len(c16Scens) }
 
 func c16ScenData() map[string]any {
-	return map[string]any{"cT": true, "cF": false, "items": []any{1, 2, 3}, "empty": []any{}, "rows": []any{[]any{}, []any{1, 2}, []any{3}}}
+	return map[string]any{"cT": true, "cF": false, "items": []any{1, 2, 3}, "empty": []any{}, "rows": []any{[]any{}, []any{1, 2}, []any{3}}, "rows2": []any{[]any{1, 2}, []any{}, []any{3}, []any{}}}
 }
 
 func (p *c16) execScen(ctx core.Ctx, c c16Case) core.Obs {
